@@ -56,7 +56,7 @@ fn strategy(ctx: &Ctx) -> BoxedStrategy<Case> {
         repo_cfg(),
         // a blob-rich pack: (fixed chunk size, number of chunks, content seed) — its header is
         // longer than any fixed guess (64 KiB = 1771 plain / 1598 compressed entries)
-        prop::option::weighted(0.12, (3u32..=8, 1500u32..2900, any::<u64>())),
+        prop::option::weighted(0.12, (3u32..=8, 1500u32..2500, any::<u64>())),
     )
         .prop_flat_map(move |(mut cfg, mut dst_cfg, blob_rich)| {
             if dst_cfg.key_seed == cfg.key_seed {
@@ -86,8 +86,11 @@ fn strategy(ctx: &Ctx) -> BoxedStrategy<Case> {
                 Just(blob_rich),
             )
         })
-        .prop_map(|(cfg, dst_cfg, mut tree, ops, extras, del_mask, read_all, blob_rich)| {
+        .prop_map(|(cfg, dst_cfg, mut tree, mut ops, mut extras, del_mask, read_all, blob_rich)| {
             if let Some((k, n, seed)) = blob_rich {
+                // thousands of blobs are re-verified after every operation: keep the history short
+                ops.truncate(2);
+                extras.truncate(1);
                 if let Some(ch) = tree.children_mut() {
                     if !ch.iter().any(|c| c.name == b"zz-many-blobs") {
                         ch.push(MNode {
